@@ -252,6 +252,7 @@ struct Args {
     verbose: bool,
     file: Option<String>,
     emit_sub: Option<String>,
+    max_ops: usize,
 }
 
 fn parse_args(args: &[String]) -> Args {
@@ -266,6 +267,7 @@ fn parse_args(args: &[String]) -> Args {
         verbose: false,
         file: None,
         emit_sub: None,
+        max_ops: 0,
     };
     let mut i = 0;
     while i < args.len() {
@@ -284,6 +286,7 @@ fn parse_args(args: &[String]) -> Args {
             "--index" => a.index = next(&mut i).parse().unwrap_or(0),
             "--budget-ms" => a.budget_ms = next(&mut i).parse().unwrap_or(0),
             "--sub" => a.emit_sub = Some(next(&mut i)),
+            "--max-ops" => a.max_ops = next(&mut i).parse().unwrap_or(0),
             "--thorough" => a.thorough = true,
             "--verbose" => a.verbose = true,
             s if !s.starts_with("--") && a.file.is_none() => a.file = Some(s.to_string()),
@@ -321,7 +324,10 @@ fn replay_of(a: &Args, index: u64, sub: Option<String>, run_seed: u64, nslots: u
 /// Plain exploration profiles: one history per index.
 fn explore_one(a: &Args, index: u64) -> (RunOut, Vec<Op>, u8) {
     let run_seed = run_seed_for(a.seed, &a.profile, index);
-    let cfg = gen::make_config(&a.profile, run_seed, a.thorough);
+    let mut cfg = gen::make_config(&a.profile, run_seed, a.thorough);
+    if a.max_ops > 0 {
+        cfg.len = cfg.len.min(a.max_ops as u16);
+    }
     let ops = gen::gen_history(&cfg, run_seed);
     let mut r = run_ops(&ops, cfg.nslots, run_seed, a.verbose, None);
     r.index = index;
@@ -673,7 +679,10 @@ fn main() {
         }
         "emit" => {
             let run_seed = run_seed_for(a.seed, &a.profile, a.index);
-            let cfg = gen::make_config(&a.profile, run_seed, a.thorough);
+            let mut cfg = gen::make_config(&a.profile, run_seed, a.thorough);
+            if a.max_ops > 0 {
+                cfg.len = cfg.len.min(a.max_ops as u16);
+            }
             let ops = gen::gen_history(&cfg, run_seed);
             let rep = Replay {
                 engine: ENGINE.into(),
